@@ -18,6 +18,7 @@ import os, re, struct, itertools, json
 from . import lib
 from . import c16_util as U
 from . import c16_reach
+from . import c16_keys
 
 NF = U.NF
 INT_KINDS = {'u8': (0, 2 ** 8 - 1), 'i8': (-2 ** 7, 2 ** 7 - 1), 'u16': (0, 2 ** 16 - 1), 'i16': (-2 ** 15, 2 ** 15 - 1),
@@ -50,8 +51,9 @@ DEFAULT_FIELD = dict({'ks2': 'k64', 'kt': 'k', 'kstr': 'name', 'mk': 'c'}, **{k:
 
 
 class Case:
-    def __init__(self, klass, kind, sortop, elems, queries=(), full=False, shared=None):
+    def __init__(self, klass, kind, sortop, elems, queries=(), full=False, shared=None, last=False):
         self.klass, self.kind, self.sortop, self.elems, self.queries, self.full = klass, kind, sortop, (None if elems is None else list(elems)), list(queries), full
+        self.last = last                    # offset kinds: objects created first = placed last in the buffer
         self.shared = shared or {}          # index -> earlier index whose object it shares (offset kinds)
 
     # ---- identity / payload of element i as the harness reports it
@@ -114,7 +116,7 @@ class Case:
         elif not self.elems: el = 'e'
         else: el = ','.join(self.elem_tok(i) for i in range(len(self.elems)))
         qs = ';'.join('%s,%s,%s,%d,%d,%s' % (op, f, m, b, e, self.key_tok(f, key)) for (op, f, m, b, e, key) in self.queries) or '-'
-        return 'V %s %s %s %s %s' % (self.kind, 'f' if self.full else 'c', self.sortop, el, qs)
+        return 'V %s %s%s %s %s %s' % (self.kind, 'f' if self.full else 'c', 'l' if self.last else '', self.sortop, el, qs)
 
 
 def float_rank(bits_list, w):
@@ -240,8 +242,12 @@ def gen_queries(rng, case, fields, nq, after_sort_field):
         else: key = absent_key(rng, case, field)
         mode = '-'
         if t == 's':
-            mode = rng.choice(['c', 'n'])
+            mode = rng.choice(['c', 'n', 'n'])
             if mode == 'c': key = U.c_str(key)
+            elif rng.random() < 0.4:
+                # explicit-length key LONGER than a stored string: stored bytes + NULs / other bytes, n = len+1, len+8, 4096
+                pad = rng.choice([1, 8, 4096 - len(key) if len(key) < 4096 else 1])
+                key = key + (b'\0' * pad if rng.random() < 0.7 else bytes(rng.choice([0, 0, 1, 0x61]) for _ in range(pad)))
         ops = ['scan', 'rscan', 'scanx', 'rscanx']
         if real == after_sort_field and real != 'p':
             # strcmp-find is only meaningful when no stored string has an embedded NUL (then it orders like the sort)
@@ -296,7 +302,9 @@ def run(ctx):
             ctx.count(rep['harness_line'], klass='replay')
             if rep.get('expected') is not None and rep.get('field') and rep['expected'] not in r.split(' '):
                 ctx.violation(rep['key'], 'replay: field %s still differs from `%s`' % (rep['field'], rep['expected'][:200]), {'harness_line': rep['harness_line'], 'reply': r[:2000]})
-        if 'schema' in rep and 'reach_depth' in rep:
+        if 'schema' in rep and str(rep.get('key', '')).startswith('default-key:'):
+            c16_keys.replay(ctx, rep)
+        elif 'schema' in rep and 'reach_depth' in rep:
             ctx.count(rep['schema'], klass='replay')
             c16_reach.replay(ctx, rep)
         elif 'schema' in rep:
@@ -369,7 +377,8 @@ def run(ctx):
                 for _ in range(rng.randint(1, 3)):
                     i = rng.randrange(1, n); j = rng.randrange(0, i)
                     if j not in shared: shared[i] = j
-            c = Case('random_%s' % kind, kind, sortop, elems, full=(n <= 40 and rng.random() < 0.5), shared=shared)
+            c = Case('random_%s' % kind, kind, sortop, elems, full=(n <= 40 and rng.random() < 0.5), shared=shared,
+                     last=(kind in OFFSET_KINDS and rng.random() < 0.5))
             sf = c.sort_field()
             if kind == 'e16' and sortop == 'rsort': sf = None      # u_e16 is not marked sorted: S_Root_sort must leave it alone
             fields = ['-'] + FIELDS.get(kind, []) + (['p'] if kind in P_KINDS else [])
@@ -378,6 +387,28 @@ def run(ctx):
         cases.append(Case('absent_%s' % kind, kind, 'sort', None, queries=[]))
         ca = Case('absent_%s' % kind, kind, 'rsort', None)
         cases.append(ca)
+    # (3b) strings at the very END of the exact-size block (objects created first are placed last; element 0 is the last object and its
+    #      length 3 mod 4 makes its terminator the last byte): explicit-length keys LONGER than the stored string must not make
+    #      the comparison read the stored string past its terminator (ASan), and must compare as "stored is a proper prefix"
+    for kind in ('str', 'kstr', 'mk'):
+        for tail in (b'abc', b'abcdefg', b'\xff\x80\x01', b'abcdefghijk'):
+            for sortop in ('none', 'sort' if kind != 'mk' else 'sort_by_s'):
+                others = gen_values(rng, 's', rng.choice([0, 1, 3, 6]), None, 'small')
+                strs = [tail] + others
+                elems = strs if kind != 'mk' else [(i % 3, -i, s_, 5 * i, 0x3f800000) for i, s_ in enumerate(strs)]
+                c = Case('string_tail_%s' % kind, kind, sortop, elems, full=(rng.random() < 0.3), last=True)
+                f = 's' if kind == 'mk' else '-'
+                qs = []
+                for st in [tail] + others[:2]:
+                    for pad in (1, 8, 4096 - len(st)):
+                        for fill in (b'\0', b'\1'):
+                            key = st + fill * pad
+                            ops = ['scan', 'rscan', 'scanx', 'rscanx'] + (['find'] if sortop != 'none' else [])
+                            op = rng.choice(ops)
+                            qs.append((op, f, 'n', 0, NF if op.endswith('x') else 0, key))
+                    qs.append(('scan', f, 'n', 0, 0, st)); qs.append(('rscan', f, 'n', 0, 0, st))
+                c.queries = qs
+                cases.append(c)
     for c in cases:
         if c.elems is None:
             # queries on an absent vector: everything is not_found
@@ -396,6 +427,8 @@ def run(ctx):
     run_schemas(ctx)
     # ---- (6) reachability of sorted vectors through every kind of edge: generated schemas + generated programs
     c16_reach.run(ctx)
+    # ---- (7) which key field the default sort / find / scan use (primary_key vs. lowest-id key), ambiguous schemas rejected
+    c16_keys.run(ctx)
 
     ctx.trusted = lib.DEFAULT_TRUSTED + ['python oracles in checks/c16_util.py (key order, first/last match, expected sorter calls from the schema AST)']
     ctx.assumptions = ['little-endian host, 64-bit size_t (no size_t wrap for vector lengths below 2^32), 32-bit uoffset_t (static assert in the harness)',
@@ -427,7 +460,7 @@ def case_from_line(line):
                 a, b_, c_ = tok.split('/'); elems.append((int(a), int(b_, 16), int(c_)))
             elif kind == 'mk':
                 a, b_, s_, c_, d_ = tok.split('/'); elems.append((int(a), int(b_), b'' if s_ == '-' else bytes.fromhex(s_), int(c_), int(d_, 16)))
-    c = Case('replay', kind, sortop, elems, full=(cf == 'f'), shared=shared)
+    c = Case('replay', kind, sortop, elems, full=(cf[0] == 'f'), shared=shared, last=('l' in cf))
     if qs != '-':
         for q in qs.split(';'):
             op, f, m, b_, e_, key = q.split(',')
